@@ -43,6 +43,7 @@ type tdesc struct {
 	elem   *tdesc
 	fields []*fdesc
 	rt     reflect.Type
+	uni    bool // some struct-field key at this level or below contains a non-ASCII letter
 }
 
 type fdesc struct {
@@ -83,10 +84,13 @@ func descOf(rt reflect.Type) *tdesc {
 		d.k = tString
 	case reflect.Slice:
 		d.k, d.elem = tSlice, descOf(rt.Elem())
+		d.uni = d.elem.uni
 	case reflect.Map:
 		d.k, d.elem = tMap, descOf(rt.Elem())
+		d.uni = d.elem.uni
 	case reflect.Ptr:
 		d.k, d.elem = tPtr, descOf(rt.Elem())
+		d.uni = d.elem.uni
 	case reflect.Struct:
 		d.k = tStruct
 		for i := 0; i < rt.NumField(); i++ {
@@ -110,6 +114,9 @@ func descOf(rt reflect.Type) *tdesc {
 				}
 			}
 			d.fields = append(d.fields, f)
+			if f.t.uni || !(f.embedded && f.t.deref().k == tStruct) && !isASCII(f.key) {
+				d.uni = true
+			}
 		}
 	default:
 		panic("c17: unsupported kind in type family: " + rt.String())
@@ -172,6 +179,9 @@ type tgen struct {
 	// dotted: half of the tag names contain dots (mapping.WithOpaqueKeys family): without that
 	// option a dotted tag name addresses a nested key
 	dotted bool
+	// uni: the probability that a key name contains non-ASCII letters (unikeys_test.go); 0 draws
+	// nothing from the random stream
+	uni float64
 }
 
 var dottedKeys = []string{"srv.name", "srv.port", "a.b", "x.y.z", "db.host", "db.pool.size", "Log.Level"}
@@ -277,7 +287,9 @@ func (g *tgen) structT(depth, minFields int) reflect.Type {
 		untagged := g.r.Chance(0.15)
 		var key string
 		for tries := 0; ; tries++ {
-			if untagged {
+			if g.uni > 0 && g.r.Chance(g.uni) {
+				key = uniKey(g.r, untagged)
+			} else if untagged {
 				key = kit.Choose(g.r, untaggedKeys)
 			} else if g.dotted && g.r.Bool() {
 				key = kit.Choose(g.r, dottedKeys)
